@@ -186,8 +186,14 @@ class Bench(Objective):
         self.name = "bench:" + spec["bench"]
         self._f = getattr(lbfgsb, spec["bench"])
         self._g = getattr(lbfgsb, spec["bench"] + "_grad")
+        # all eight packaged functions are compositions of analytic functions (verified on the pinned tree: the
+        # complex-step derivative reproduces the packaged gradient to 1e-12), so jac='cs' is a legal mode for them
+        self.analytic = True
+        self.convex = spec["bench"] in ("sphere", "quartic")
 
     def f(self, x):
+        if np.iscomplexobj(x):
+            return self._f(np.asarray(x))
         return float(self._f(np.asarray(x, dtype=float)))
 
     def g(self, x):
@@ -287,6 +293,32 @@ class Padded(Objective):
         return self.base.fmag(np.asarray(x, dtype=float)[self.idx])
 
 
+class Barrier(Objective):
+    """0.5|x-a|^2 - mu * sum log(x_i - l_i): an objective with a restricted domain (x > l). Outside it the value is NaN
+    (what np.log gives) or +inf, as the spec says; the gradient formula is evaluated wherever it is asked for."""
+
+    def __init__(self, spec):
+        super().__init__(spec["n"])
+        self.name = "barrier"
+        self.a = np.asarray(spec["a"], dtype=float)
+        self.l = np.asarray(spec["l"], dtype=float)
+        self.mu = float(spec["mu"])
+        self.outside = float("nan") if spec.get("outside", "nan") == "nan" else float("inf")
+
+    def f(self, x):
+        x = np.asarray(x, dtype=float)
+        d = x - self.l
+        if np.any(d <= 0):
+            return self.outside
+        return float(0.5 * np.sum((x - self.a) ** 2) - self.mu * np.sum(np.log(d)))
+
+    def g(self, x):
+        x = np.asarray(x, dtype=float)
+        d = x - self.l
+        with np.errstate(all="ignore"):
+            return (x - self.a) - self.mu / np.where(d == 0, 1e-300, d)
+
+
 def build_objective(spec: Dict[str, Any]) -> Objective:
     fam = spec["family"]
     if fam == "padded":
@@ -303,6 +335,8 @@ def build_objective(spec: Dict[str, Any]) -> Objective:
         return ScaledSphere(spec)
     if fam == "kink":
         return SmoothKink(spec)
+    if fam == "barrier":
+        return Barrier(spec)
     raise ValueError(f"unknown family {fam}")
 
 
